@@ -211,18 +211,46 @@ def _raising(node):
 
 
 def _find_guards(mod, f, tokens):
-    """`if <test>: raise` or, equivalently, `if <X>: ... else: raise` read as the guard `not <X>`"""
+    """`if <test>: raise`; or `if <X>: ... else: raise` read as the guard `not <X>`; or
+    `if <X>: return` followed by an unconditional raise in the same block (guard `not <X>`).
+    Temporaries assigned once are seen through (`bad = a < b; if numpy.any(bad): raise`)."""
+    from ..model import inline_temporaries
     out = []
+
+    def text(test):
+        # the test as written, then the same with once-assigned temporaries seen through
+        return mod.code(test) + " || " + mod.code(inline_temporaries(f.node, test))
+
     for n in ast.walk(f.node):
         if isinstance(n, ast.If) and _raising(n.body):
-            t = mod.code(n.test)
+            t = text(n.test)
             if all(key_in(tok, t) for tok in tokens):
                 out.append(n)
         elif isinstance(n, ast.If) and n.orelse and _raising(n.orelse) and not (len(n.orelse) == 1 and isinstance(n.orelse[0], ast.If)):
-            t = mod.code(n.test)
-            if any(all(key_in(tok, v) for tok in tokens) for v in ("not" + t, "not(" + t + ")")):
+            t = text(n.test)
+            if any(all(key_in(tok, v) for tok in tokens) for v in _negations(t)):
                 out.append(n)
+    for b in _blocks_of(f.node):
+        for i, n in enumerate(b):
+            if isinstance(n, ast.If) and not n.orelse and len(n.body) == 1 and isinstance(n.body[0], ast.Return) and n.body[0].value is None \
+                    and any(isinstance(x, ast.Raise) for x in b[i + 1:]):
+                t = text(n.test)
+                if any(all(key_in(tok, v) for tok in tokens) for v in _negations(t)) and n not in out:
+                    out.append(n)
     return out
+
+
+def _negations(t):
+    parts = t.split(" || ")
+    return ["not" + p + " || " + "not(" + p + ")" for p in parts] + [" || ".join("not" + p for p in parts), " || ".join("not(" + p + ")" for p in parts)]
+
+
+def _blocks_of(root):
+    for n in ast.walk(root):
+        for fld in ("body", "orelse", "finalbody"):
+            b = getattr(n, fld, None)
+            if isinstance(b, list) and b and isinstance(b[0], ast.stmt):
+                yield b
 
 
 def _preceding(f, node):
